@@ -54,6 +54,8 @@ def ls_sem(load, size, n, t, offset, index=True, add=True, wback=False, literal=
 
     def sem(S, f):
         tt = t(f)
+        if unpriv:
+            S.unpriv_access = True  # MemU_unpriv: User permissions whatever the mode
         if unpriv and S.have_virt:
             S.unpredictable(S.is_mode('hyp'))
         if literal:
